@@ -131,6 +131,11 @@ impl Property for C04 {
             return out;
         }
         if let Some((k, m)) = trace_diff(&t, &real, Projection::INPUTS_EXPECTED) {
+            let ropts = ri::RiOpts { continue_after_virtual_error: true, ..Default::default() };
+            if !k.starts_with("panic:") && !still_differs_with_real_call_indices(&built.prog, &built.sigs, &spec, &ropts, &real, Projection::INPUTS_EXPECTED) {
+                out.class("difference-caused-by-call-protocol-only");
+                return out;
+            }
             let key = if k.starts_with("panic:") { k } else { format!("c04:{k}") };
             out.fail(key, m);
         }
